@@ -349,6 +349,61 @@ def _margin_tests(fn, defs):
     return out
 
 
+def _none_or_number_slots(fn):
+    """{slot: [(test node, 'none'|'truth')]} for names / constant-key slots assigned None somewhere and a non-boolean,
+    non-None, non-collection value elsewhere in `fn`."""
+    none_as, num_as = set(), set()
+    for n in ast.walk(fn):
+        if isinstance(n, ast.Assign):
+            for t in n.targets:
+                k = P._key_of_target(t)
+                if not k:
+                    continue
+                v = n.value
+                if isinstance(v, ast.Constant) and v.value is None:
+                    none_as.add(k)
+                elif isinstance(v, ast.Constant) and isinstance(v.value, bool):
+                    pass
+                elif isinstance(v, (ast.Dict, ast.List, ast.Set, ast.Tuple, ast.ListComp, ast.DictComp, ast.JoinedStr)) or \
+                        (isinstance(v, ast.Constant) and isinstance(v.value, str)):
+                    pass
+                elif isinstance(v, ast.Call) and norm(v.func) in ("dict", "list", "set", "sorted", "str"):
+                    pass
+                else:
+                    num_as.add(k)
+    slots = none_as & num_as
+    out = {k: [] for k in slots}
+
+    def is_slot(e):
+        if isinstance(e, ast.Name) and e.id in slots:
+            return e.id
+        if isinstance(e, ast.Subscript) and isinstance(e.slice, ast.Constant) and norm(e) in slots:
+            return norm(e)
+        return None
+
+    def truth_ctx(e):          # e is evaluated for its truth value
+        k = is_slot(e)
+        if k:
+            out[k].append((e, "truth"))
+        elif isinstance(e, ast.UnaryOp) and isinstance(e.op, ast.Not):
+            truth_ctx(e.operand)
+        elif isinstance(e, ast.BoolOp):
+            for v in e.values:
+                truth_ctx(v)
+    for n in ast.walk(fn):
+        if isinstance(n, (ast.If, ast.While, ast.IfExp, ast.Assert)):
+            truth_ctx(n.test)
+        elif isinstance(n, ast.comprehension):
+            for c in n.ifs:
+                truth_ctx(c)
+        if isinstance(n, ast.Compare) and len(n.ops) == 1 and isinstance(n.ops[0], (ast.Is, ast.IsNot, ast.Eq, ast.NotEq)) and \
+                isinstance(n.comparators[0], ast.Constant) and n.comparators[0].value is None:
+            k = is_slot(n.left)
+            if k:
+                out[k].append((n, "none"))
+    return out
+
+
 def run(ctx):
     ctx.rule("G1", "every loop variable that reaches the returned configuration iterates a declared *_range attribute "
                    "(range/reversed/clkdiv_range of self.<x>range, possibly through locals); frozen exceptions with reason",
@@ -362,10 +417,46 @@ def run(ctx):
     ctx.rule("G5", "configuration keys read by do_finalize are written by compute_config; each primitive parameter takes "
                    "the key whose name tokens it contains (vendor alias table)", min_sites=40)
 
+    ctx.rule("G6", "per-candidate flags are fresh: inside the loop whose iteration evaluates one candidate (the innermost loop that "
+                   "returns the configuration) every read of a flag (a name or config[...] slot that is assigned True/False/None in a "
+                   "loop) is preceded, on every feasible path of one iteration of that loop or of a loop nested in it, by a store of "
+                   "the same iteration: nothing decided for an earlier, rejected candidate (or output) leaks into the returned one", min_sites=16)
+    ctx.rule("G7", "no None / 0 confusion: a name or config[...] slot that holds None for 'nothing chosen' and otherwise an index or "
+                   "number (assigned a non-boolean value) is tested with `is None` / `is not None`, never by truthiness -- index 0 / "
+                   "value 0 is a legal choice", min_sites=2)
     for rel, cname, users in SEARCHES:
         m = ctx.mod(D + rel)
         fn = m.method(cname, "compute_config")
         ctx.analysed["functions"].add(f"{D + rel}::{cname}.compute_config")
+        # ---------- G7
+        for k, tests in sorted(_none_or_number_slots(fn).items()):
+            bad = [t for t, how in tests if how == "truth"]
+            ok = not bad
+            ctx.ob("G7", D + rel, f"{cname}.compute_config", f"{k}: tested against None only ({len(tests)} tests)", ok,
+                   "" if ok else f"`{norm(bad[0])}` tests `{k}` by truthiness although it holds None or a number/index: the legal "
+                                 f"value 0 is taken for 'nothing', a valid candidate is rejected (or an invalid one accepted)", bad[0] if bad else fn)
+        # ---------- G6
+        if P.candidate_loop(fn) is not None:
+            stale, nreads = P.stale_reads(fn)
+            keys = sorted(P.flag_keys(fn))
+            for k in keys:
+                bad = [(n, p) for kk, lp, n, p in stale if kk == k]
+                ok = not bad
+                ctx.ob("G6", D + rel, f"{cname}.compute_config", f"flag {k}: fresh per candidate", ok,
+                       "" if ok else f"`{k}` read at line {bad[0][0].lineno} can still hold what an earlier candidate left there "
+                                     f"(path of one iteration without a prior store: {bad[0][1].show()[:160]})", bad[0][0] if bad else fn)
+            ctx.analysed["paths"] += nreads
+            # sibling agreement (all five return-style searches): the per-output flag `valid` is reset once per requested output
+            if "valid" in keys:
+                loops = P._loops_with_parents(fn)
+                resets = [lp for lp, chain in loops.values() for st in lp.body
+                          if isinstance(st, ast.Assign) and norm(st.targets[0]) == "valid" and isinstance(st.value, ast.Constant) and st.value.value is False]
+                ok = len(resets) == 1 and "self.clkouts" in norm(resets[0].iter) if resets and isinstance(resets[0], ast.For) else False
+                ctx.ob("G6", D + rel, f"{cname}.compute_config", "flag valid: reset once per requested output (loop over self.clkouts)", ok,
+                       "" if ok else "`valid = False` is not a direct statement of the loop over self.clkouts: an output that cannot be met "
+                                     "inherits `valid` from the output before it and the candidate is accepted", resets[0] if resets else fn)
+        else:
+            ctx.note(f"G6: {cname}.compute_config collects candidates and returns after the loops; flags not checked")
         defs = _local_defs(fn)
         writes = _config_writes(fn)
         written_exprs = [v for _, v, _ in writes]
